@@ -691,6 +691,57 @@ def check(ctx):
         else:
             ctx.fail(rec, rn, f"n_evals is advanced {len(incs)} times on the path ending at this return (expected exactly once)", construct=f"n_evals increments on path -> {canon(rn.value)}: {len(incs)}")
 
+    # ------------------------------------------------------------------ R9
+    ctx.rule("R9", "no in-place numpy operation (overwrite_input=True, sort / partition / fill / shuffle) on a view of a log table outside the logger", floor=0)
+    from .common import deref_expr as _dx9
+
+    def _log_view(fn_, e_):
+        d_ = _dx9(prog, fn_, e_)
+        for _ in range(6):
+            if isinstance(d_, ast.Subscript):
+                sl_ = d_.slice
+                basic = isinstance(sl_, (ast.Slice, ast.Constant)) or (isinstance(sl_, ast.Tuple) and all(isinstance(x_, (ast.Slice, ast.Constant)) for x_ in sl_.elts))
+                if not basic:
+                    return None  # fancy / boolean indexing copies
+                d_ = d_.value
+            elif isinstance(d_, ast.Attribute) and d_.attr == "T":
+                d_ = d_.value
+            elif isinstance(d_, ast.Call) and isinstance(d_.func, ast.Attribute) and d_.func.attr in ("reshape", "ravel", "view", "squeeze", "transpose") :
+                d_ = d_.func.value
+            elif isinstance(d_, ast.Call) and call_name(d_) in ("np.asarray", "np.atleast_2d", "np.atleast_1d", "np.ravel", "np.reshape") and d_.args:
+                d_ = d_.args[0]
+            else:
+                break
+        c_ = canon(d_)
+        if isinstance(d_, ast.Attribute) and d_.attr in arrays and (c_.startswith("LOG.") or "logger" in c_.lower()):
+            return c_
+        return None
+
+    n9 = 0
+    for fn_ in prog.functions():
+        if fn_.cls is R.logger_cls:
+            continue
+        for c_ in ast.walk(fn_.node):
+            if not isinstance(c_, ast.Call):
+                continue
+            victim = None
+            ow = kw(c_, "overwrite_input")
+            if ow is not None and not (isinstance(ow, ast.Constant) and ow.value is False) and c_.args:
+                victim = c_.args[0]
+            elif isinstance(c_.func, ast.Attribute) and c_.func.attr in ("sort", "partition", "fill", "resize", "itemset", "put") and not call_name(c_).startswith("np."):
+                victim = c_.func.value
+            elif isinstance(c_.func, ast.Attribute) and c_.func.attr == "shuffle" and c_.args:
+                victim = c_.args[0]
+            if victim is None:
+                continue
+            n9 += 1
+            hit = _log_view(fn_, victim)
+            if hit:
+                ctx.fail(fn_, c_, f"{canon(c_.func)} works in place on a view of the log table {hit}: recorded rows are re-ordered / overwritten (a logged point no longer pairs with its value)", construct=f"in-place {canon(c_.func)} on {hit}")
+            else:
+                ctx.ok(fn_, c_, f"in-place {canon(c_.func)} not on a log view")
+    ctx.extra["inplace_numpy_calls_examined"] = n9
+
     # ------------------------------------------------------------------ R8
     ctx.rule("R8", "finalize trims the per-row arrays consistently to the filled rows", floor=1)
     fin = R.logger_cls.find_method("finalize")
